@@ -245,10 +245,35 @@ func c01Def(name string) (c01AppDef, bool) {
 	return c01AppDef{}, false
 }
 
+// c01Huge: output sizes around the 16-bit boundary with a page of 70000 bytes (a large static template, as a
+// web front end might have): the page is delivered only where it fits.
+func c01Huge(size uint32) (sig, msg string) {
+	a := app.New("huge")
+	a.Node("root", strings.Repeat("0123456789", 7000), codec.Ins{Op: codec.MOUT, Sym: "go", Sel: "1"}, codec.Ins{Op: codec.HALT}, codec.Ins{Op: codec.INCMP, Sym: ".", Sel: "1"})
+	a.Node("_catch", "catch", codec.Ins{Op: codec.HALT}, codec.Ins{Op: codec.INCMP, Sym: "_", Sel: "*"})
+	s := app.NewSession(a, engine.Config{OutputSize: size}, app.LongLived)
+	r := s.Request([]byte(""))
+	if r.Panic != "" {
+		return "panic", fmt.Sprintf("output size %d, page of 70005 bytes: panic %s", size, r.Panic)
+	}
+	if len(r.Out) > int(size) {
+		return "oversize-page", fmt.Sprintf("output size %d: a page of %d bytes is delivered", size, len(r.Out))
+	}
+	if size >= 70005 && (r.FlushErr != "" || len(r.Out) != 70005) {
+		return "page-that-fits-refused", fmt.Sprintf("output size %d: the page of 70005 bytes is not delivered (%q, %d bytes)", size, r.FlushErr, len(r.Out))
+	}
+	return "", ""
+}
+
+var c01HugeSizes = []uint32{65535, 65536, 65537, 70004, 70005, 131072, 1 << 24, 1<<32 - 1}
+
 func c01Replay(w json.RawMessage) (string, string) {
 	var wit c01Witness
 	if err := json.Unmarshal(w, &wit); err != nil {
 		return "bad-witness", err.Error()
+	}
+	if wit.App == "huge" {
+		return c01Huge(wit.Size)
 	}
 	if wit.Sink != nil {
 		s, m, _ := c02Walk(*wit.Sink, nil)
@@ -267,6 +292,15 @@ func c01Replay(w json.RawMessage) (string, string) {
 }
 
 func c01Run(c *mc.Ctx) {
+	if c.Mine() {
+		for _, sz := range c01HugeSizes {
+			c.Count("evaluations", 1)
+			c.Count("sizes_at_the_16_bit_boundary", 1)
+			if sig, msg := c01Huge(sz); sig != "" {
+				c.Fail(sig, msg, c01Witness{App: "huge", Size: sz})
+			}
+		}
+	}
 	depth := 3
 	modes := []string{"long-lived", "persisted"}
 	if c.Thorough() {
